@@ -54,7 +54,11 @@ def main():
             from vlib.mon import faults
             _c = case["case"] if "case" in case and "property" in case else case
             faults.new_case(_c.get("n") if isinstance(_c, dict) else None)
-            mod.replay(rec, case["case"] if "case" in case and "property" in case else case)
+            if isinstance(_c, dict) and _c.get("kind") == "fault-plane" and hasattr(mod, "FAULT_PLANE_OPS"):
+                from vlib.checks import faultplane
+                faultplane.run(rec, pid, mod.FAULT_PLANE_OPS)
+            else:
+                mod.replay(rec, _c)
     except BaseException:
         rec.inconclusive.append(f"worker {mode} crashed: " + traceback.format_exc()[-1500:])
     finally:
